@@ -175,6 +175,9 @@ pub struct WorldInfo {
     pub assumptions: Vec<String>,
     /// counters that must be non-zero after a thorough batch (else exit 2: workload is wrong)
     pub required_probes: Vec<&'static str>,
+    /// is a run that never returns (wall-clock watchdog) a violation of the property, or harness trouble?
+    /// true where a run's cost is bounded by construction, so that only a genuine hang can outlive the watchdog
+    pub hang_is_a_verdict: bool,
     pub quick_runs: u64,
     pub thorough_runs: u64,
 }
@@ -664,6 +667,12 @@ pub fn run_batch<W: World>(world: W, args: &BatchArgs, report: &Report) -> i32 {
     let mut exit = 0;
     let mut replay_path = None;
     if let Some(idx) = hung {
+        if !world.info(&args.prop).hang_is_a_verdict {
+            // this world's runs are bounded by the harness's own step budgets, and its properties say nothing
+            // about time: a run that outlives the watchdog means a budget is too generous — harness trouble
+            report.line(&format!("HARNESS-ERROR: run {idx} did not return within the wall-clock watchdog ({deadline}s for the batch); the step budgets of world {wname} need tightening (no verdict)"));
+            return 2;
+        }
         if violation.as_ref().map_or(true, |(j, _, _)| idx < *j) {
             // a run that never returned: report it unminimised (minimising a hang is unbounded)
             let rs = rng::run_seed(args.seed, wname, idx);
